@@ -35,14 +35,21 @@ CONTAINER_METHODS = {"append", "extend", "insert", "pop", "popleft", "appendleft
                      "reverse", "rotate", "tobytes", "tostring", "frombytes"}
 
 
+class _Names(set):
+    """names defined by ``def`` in the classes of the package; ``.by_class``: the same, per class"""
+    by_class = None
+
+
 def method_names(trees):
     """names defined by ``def`` directly in a class body of the package"""
-    out = set()
+    out = _Names()
+    out.by_class = {}
     for t in trees:
         for c in [n for n in ast.walk(t) if isinstance(n, ast.ClassDef)]:
             for m in c.body:
                 if isinstance(m, FuncTypes):
                     out.add(m.name)
+                    out.by_class.setdefault(c.name, set()).add(m.name)
     return out
 
 
@@ -218,6 +225,8 @@ def write_back(tree, related_classes, sites, only=None, keep=(), methods=()):
     by_class, anywhere = sites
     keep_by_func = keep if isinstance(keep, dict) else None
     keep = set() if keep_by_func is not None else set(keep)
+    package_defs = set(methods)
+    defs_by_class = getattr(methods, "by_class", None) or {}
     methods = set(methods) | CONTAINER_METHODS
     done = []
     module_names = set()
@@ -284,6 +293,7 @@ def write_back(tree, related_classes, sites, only=None, keep=(), methods=()):
             return False
 
         public = [False]
+        computed = [False]
 
         def classify(e, locals_used, numeric):
             """True when e is of an accepted form; fills locals_used; numeric[0] stays True while every leaf is a number"""
@@ -309,6 +319,9 @@ def write_back(tree, related_classes, sites, only=None, keep=(), methods=()):
                 root_cls = cls if (root.id == "self" and "self" in params) else None
                 if root.id in typed and _pos(typed[root.id][1]) < _pos(e):
                     root_cls = typed[root.id][0]
+                g_ = guarded.get(id(current_stmt[0]), {}) if current_stmt[0] is not None else {}
+                if root.id in g_ and len(stores.get(root.id, [])) == 0:
+                    root_cls = g_[root.id]
                 cur = e
                 while isinstance(cur, ast.Attribute):
                     # only the attribute read directly from an object of known class is judged per class
@@ -318,6 +331,13 @@ def write_back(tree, related_classes, sites, only=None, keep=(), methods=()):
                     if not cur.attr.startswith("_") and cur.attr not in methods:
                         # a public data attribute: callers may assign it whenever this frame is suspended
                         public[0] = True
+                    known_cls = root_cls if direct else None
+                    in_defs = cur.attr in package_defs if known_cls is None or not defs_by_class else any(
+                        cur.attr in defs_by_class.get(c_, ()) for c_ in related_classes(known_cls))
+                    if in_defs:
+                        # defined by `def` in a class of the package: a method - or a property, whose value is computed
+                        # at each access (judged by how the local is used, below)
+                        computed[0] = True
                     cur = cur.value
                 return classify(root, locals_used, [True])
             if isinstance(e, ast.BinOp) and isinstance(e.op, (ast.Add, ast.Sub, ast.Mult, ast.Div, ast.Pow, ast.FloorDiv, ast.Mod)):
@@ -392,6 +412,17 @@ def write_back(tree, related_classes, sites, only=None, keep=(), methods=()):
                 if isinstance(b, ast.Assign) and len(b.targets) == 1 and isinstance(b.targets[0], ast.Name) and b.targets[0].id == P \
                         and isinstance(b.value, ast.Call) and isinstance(b.value.func, ast.Name) and b.value.func.id == C:
                     typed[P] = (C, n)
+        # inside ``if isinstance(P, C):`` P is a C
+        guarded = {}
+        for n in _own_nodes(fn):
+            if isinstance(n, ast.If) and isinstance(n.test, ast.Call) and isinstance(n.test.func, ast.Name) \
+                    and n.test.func.id == "isinstance" and len(n.test.args) == 2 and isinstance(n.test.args[0], ast.Name) \
+                    and isinstance(n.test.args[1], ast.Name):
+                for b in n.body:
+                    for x in ast.walk(b):
+                        if isinstance(x, ast.stmt):
+                            guarded.setdefault(id(x), {})[n.test.args[0].id] = n.test.args[1].id
+        current_stmt = [None]
         stores = {}
         for n in _own_nodes(fn):
             if isinstance(n, ast.Name) and isinstance(n.ctx, (ast.Store, ast.Del)):
@@ -443,9 +474,12 @@ def write_back(tree, related_classes, sites, only=None, keep=(), methods=()):
                         continue            # plain copies of names are the business of the equivalence engine
                     locals_used, numeric = set(), [True]
                     public[0] = False
+                    computed[0] = False
+                    current_stmt[0] = st
                     if not classify(e, locals_used, numeric):
                         continue
                     reads_public = public[0]
+                    maybe_property = computed[0]
                     plain_attr = isinstance(e, (ast.Attribute, ast.Lambda, ast.Constant))
                     if isinstance(e, (ast.Dict, ast.Tuple)):
                         # every use only reads it: a look-up v[...], the iterable of a loop / comprehension, `x in v`
@@ -465,11 +499,24 @@ def write_back(tree, related_classes, sites, only=None, keep=(), methods=()):
                         plain_attr = True
                     # every use after the binding, inside the block that holds it
                     end = (getattr(st, "end_lineno", st.lineno), getattr(st, "end_col_offset", 0))
+                    for par_ in ast.walk(fn):
+                        for ch_ in ast.iter_child_nodes(par_):
+                            if isinstance(ch_, ast.Name) and ch_.id == v:
+                                ch_._al_parent = par_
                     all_loads = [n for n in ast.walk(fn) if isinstance(n, ast.Name) and n.id == v and isinstance(n.ctx, ast.Load)]
                     inside = [n for s2 in blk[i + 1:] for n in ast.walk(s2)
                               if isinstance(n, ast.Name) and n.id == v and isinstance(n.ctx, ast.Load)]
                     if not all_loads or len(inside) != len(all_loads) or any(_pos(n) < end for n in all_loads):
                         continue
+                    if maybe_property and plain_attr:
+                        # a bound method is only ever called; anything else read through a `def` of the package is a
+                        # property value: computed once here, it must not be written out where it would be computed
+                        # again (several uses, a use inside a loop) or changed through the local
+                        calls_only = all(isinstance(getattr(n, "_al_parent", None), ast.Call) and n._al_parent.func is n
+                                         for n in all_loads)
+                        if not calls_only:
+                            plain_attr = False
+                            numeric[0] = False
                     if not (plain_attr or numeric[0] or len(all_loads) == 1):
                         continue
                     if reads_public and _suspended_before_use(blk[i + 1:], v):
